@@ -47,9 +47,9 @@ PROPS = {
    oracle_for_stage={"compile": ["reread"]},
    corpus=["compile.txt", "reserved.txt"], tables=["Gen/Tables.v: op_prec, binop_sql, known_funcs, writer_arity, writer_template, builtin_idents"]),
  "C02": dict(
-   corr=[("pipes-exh-3", "compile", 0, 0), ("pipes", "compile", 3000, 150000)],
+   corr=[("pipes-exh-3", "compile", 0, 0), ("pipes", "compile", 3000, 150000), ("prog", "compile", 2000, 100000)],
    thorough_corr=[("pipes-exh-4", "compile", 0, 0)],
-   oracle=[("pipes-exh-3", "reread", 0, 0), ("pipes", "reread", 3000, 150000), ("pipes", "oracle-C13", 1500, 75000)],
+   oracle=[("pipes-exh-3", "reread", 0, 0), ("pipes", "reread", 3000, 150000), ("prog", "reread", 2000, 100000), ("pipes", "oracle-C13", 1500, 75000)],
    thorough_oracle=[("pipes-exh-4", "reread", 0, 0)],
    oracle_for_stage={"compile": ["reread"]},
    corpus=["compile.txt"], tables=["Gen/AstTables.v: can_attach_sort, split_cond_sort, split_cond_take, split_cond_top"],
@@ -83,8 +83,9 @@ PROPS = {
    corpus=["parse.txt"], tables=["Gen/Tables.v: op_prec"]),
  "C10": dict(
    corr=[("prog", "spans", 4000, 200000), ("prog", "parse", 3000, 150000), ("prog-mut", "parse", 3000, 150000), ("prog-hostile", "spans", 1500, 75000), ("joins", "spans", 1000, 50000),
-         ("prog", "compile", 4000, 200000), ("prog-mut", "compile", 2000, 100000)],
-   oracle=[("prog", "oracle-C10", 4000, 200000), ("prog-mut", "oracle-C10", 3000, 150000), ("prog-hostile", "oracle-C10", 1500, 75000), ("bytes-rand", "oracle-C10", 1500, 75000)],
+         ("prog", "compile", 4000, 200000), ("prog-mut", "compile", 2000, 100000),
+         ("eof", "parse", 600, 15000), ("eof", "spans", 600, 15000), ("lit", "scan", 2000, 100000), ("dangle", "spans", 0, 0)],
+   oracle=[("eof", "oracle-C10", 600, 15000), ("prog", "oracle-C10", 4000, 200000), ("prog-mut", "oracle-C10", 3000, 150000), ("prog-hostile", "oracle-C10", 1500, 75000), ("bytes-rand", "oracle-C10", 1500, 75000)],
    oracle_for_stage={"parse": ["oracle-C10"], "spans": ["oracle-C10"], "compile": ["oracle-C10"]},
    corpus=["parse.txt"], tables=["Gen/AstTables.v: ast_fields, span_parts"],
    assumptions=["spans inside the partial trees returned with a parse error are checked on the implementation only (the model builds no partial trees)"]),
@@ -95,20 +96,20 @@ PROPS = {
    corpus=["walk.txt"], tables=["Gen/AstTables.v: walk_children, ast_fields"]),
  "C12": dict(
    corr=[("bytes-rand", "scan", 2000, 100000, "status"), ("bytes-rand", "parse", 3000, 150000, "status"), ("prog-mut", "compile", 3000, 150000, "status"),
-         ("deep", "compile", 300, 15000, "status"), ("deep", "parse", 300, 15000, "status"), ("walk", "walk", 2000, 100000, "status"), ("prog-params", "compile", 1500, 75000, "status")],
-   oracle=[("bytes-rand", "oracle-C12", 3000, 150000), ("prog-mut", "oracle-C12", 3000, 150000), ("deep", "oracle-C12", 300, 15000), ("prog-params", "oracle-C12", 1500, 75000), ("bytes-exh-3", "oracle-C12", 0, 0), ("letchain", "oracle-C12-growth", 20, 100)],
+         ("deep", "compile", 300, 15000, "status"), ("deep", "parse", 300, 15000, "status"), ("walk", "walk", 2000, 100000, "status"), ("prog-params", "compile", 1500, 75000, "status"), ("wide", "compile", 16, 60, "status"), ("pipes", "compile", 2500, 100000, "status")],
+   oracle=[("wide", "oracle-C12", 16, 60), ("pipes", "oracle-C12", 2500, 100000), ("bytes-rand", "oracle-C12", 3000, 150000), ("prog-mut", "oracle-C12", 3000, 150000), ("deep", "oracle-C12", 300, 15000), ("prog-params", "oracle-C12", 1500, 75000), ("bytes-exh-3", "oracle-C12", 0, 0), ("letchain", "oracle-C12-growth", 20, 100)],
    corpus=["parse.txt", "lex.txt", "compile.txt"], tables=["Gen/AstTables.v: walk_children"],
    assumptions=["wall-clock time, Go stack growth and allocation are observed by the harness watchdog (5 s per call), not proved"]),
  "C13": dict(
-   corr=[("rules", "compile", 5000, 250000, "status"), ("prog-mut", "compile", 3000, 150000, "status"), ("prog-params", "compile", 2000, 100000, "status"), ("lets", "compile", 1500, 75000, "status")],
-   oracle=[("lets", "oracle-C14", 500, 25000), ("rules", "oracle-C13", 5000, 250000), ("prog-mut", "oracle-C13", 3000, 150000), ("prog-params", "oracle-C13", 2000, 100000), ("lets", "oracle-C13", 1500, 75000), ("bytes-rand", "oracle-C13", 1500, 75000)],
+   corr=[("rules", "compile", 5000, 250000, "status"), ("prog-mut", "compile", 3000, 150000, "status"), ("prog-params", "compile", 2000, 100000, "status"), ("lets", "compile", 1500, 75000, "status"), ("wide", "compile", 16, 60, "status")],
+   oracle=[("lets", "oracle-C14", 500, 25000), ("wide", "oracle-C13", 16, 60), ("rules", "oracle-C13", 5000, 250000), ("prog-mut", "oracle-C13", 3000, 150000), ("prog-params", "oracle-C13", 2000, 100000), ("lets", "oracle-C13", 1500, 75000), ("bytes-rand", "oracle-C13", 1500, 75000)],
    oracle_for_stage={"compile": ["oracle-C13"]},
    corpus=["compile.txt"], tables=["Gen/Tables.v: known_funcs, writer_arity, join_types"]),
  "C14": dict(
    corr=[("prog-params", "compile", 3000, 150000), ("lets", "compile", 1500, 75000)],
    oracle=[("prog-params", "oracle-C14", 1500, 75000), ("lets", "oracle-C14", 1500, 75000), ("prog-mut", "oracle-C14", 1000, 50000)],
    race=True,
-   repeat=[("rules", "resulttext", 150, 3000, 12)],
+   repeat=[("rules", "resulttext", 150, 3000, 12), ("lets", "resulttext", 400, 6000, 12), ("prog-params", "resulttext", 150, 3000, 12)],
    corpus=["compile.txt"], tables=["Gen/Shared.v: package_vars, write_sites"],
    assumptions=["absence of data races under the Go memory model is observed with the race detector (harness built with -race for the C14 oracle), not proved; sync.Once's contract is trusted"]),
  "C16": dict(
